@@ -570,12 +570,17 @@ def n_envelope(ch, root):
         perm = ch.choose("perm", list(itertools.permutations(list(parts))))
         return {"SUIT_Envelope_Tagged": {k: copy.deepcopy(parts[k]) for k in perm}}, files
     # dependencies: digest by envelope reference (inline / path) + embedded child (inline / path), depth 1-2
-    depth = ch.choose("depth", [1, 2])
+    depth = ch.choose("depth", [1, 2, 3])
     alg_parent = ch.choose("palg", ALG5)
     alg_child = ch.choose("calg", ALG5)
     grand = child_env(seq=30, alg="cose-alg-sha-512")
     child = child_env(seq=20, alg=alg_child)
-    if depth == 2:
+    if depth == 3:
+        great = child_env(seq=40, alg="cose-alg-shake256", extra={"suit-integrated-payloads": {"#leaf": "00ff"}})
+        great["SUIT_Envelope_Tagged"]["suit-manifest"]["suit-text"] = digest("cose-alg-sha-384", "00")
+        great["SUIT_Envelope_Tagged"]["suit-text"] = {"en": {"suit-text-manifest-description": "level 3"}}
+        grand["SUIT_Envelope_Tagged"]["suit-integrated-dependencies"] = {"#great": great}
+    if depth >= 2:
         child["SUIT_Envelope_Tagged"]["suit-integrated-dependencies"] = {"#grand": grand}
         child["SUIT_Envelope_Tagged"]["suit-manifest"]["suit-install"] = [{"suit-directive-override-parameters": {
             "suit-parameter-image-digest": digest("cose-alg-sha-384", {"envelope": copy.deepcopy(grand)})}}]
